@@ -27,7 +27,9 @@
        - [genFunctionWrapper] for a deferred interpreted callee allocates [newFrame(f, ...)]: the
          deferring frame is the callee's [anc]; a plain call allocates [newFrame(f, ...)] with the
          calling frame as [anc];
-       - [getFunc]: a closure value locks the mutex of the frame that created it after every call;
+       - [getFunc] (as repaired by abe7a69): the wrapper of a function literal writes nothing back and
+         takes no mutex when a call ends, so a closure of an activation may be called while runCfg
+         holds that activation's mutex (from its deferred calls);
        - a named function or method declared later in the source and deferred inside a function
          literal is never run;
        - [Execute]: a Go-level recover turns an escaping panic into [Panic{Value: v}].
@@ -379,8 +381,8 @@ Section Y.
         (f, mka (a_vars anc) None (a_locked anc), [ERec (show_y r); ERec (show_y r)],
          match r with Some _ => true | None => false end, Fall)
     | SCallClosure t =>
-        (* getFunc: after the call, f.mutex.Lock() on the frame that created the closure *)
-        if a_locked anc then (f, anc, [EClo t], true, Hung) else (f, anc, [EClo t], false, Fall)
+        (* getFunc: the call of the closure returns whatever the state of the creating frame's mutex *)
+        (f, anc, [EClo t], false, Fall)
     | SReturn None => (f, anc, [], false, Returned)
     | SReturn (Some z) => (mky (setv (y_vars f) v_res z) (y_rv f) (y_def f) (y_rec f) (y_locked f), anc, [], false, Returned)
     end.
